@@ -30,6 +30,7 @@ def pairs(tier):
     P.append(("benign-settings", call("02/03/2015 10:30", ["en"], TIMEZONE="UTC"), call("02/03/2015 10:30", ["en"], TIMEZONE="+0530", RETURN_AS_TIMEZONE_AWARE=True)))
     P.append(("benign-settings", call("March 2015", ["en"], PREFER_DAY_OF_MONTH="first"), call("March 2015", ["en"], PREFER_DAY_OF_MONTH="last", PREFER_DATES_FROM="past")))
     P.append(("same-config", call("March 5, 2014", ["en"]), call("an hour ago", ["en"])))      # B needs one of the locale's simplifications
+    P.append(("same-config", call("March 5, 2014", ["en"]), call("in 2 weeks", ["en"])))       # B needs one of the locale's counted relative patterns
     # differing only in the reference instant (relative phrases, incomplete dates), or in a zone word the string itself carries
     P.append(("benign-settings", call("2 days ago", ["en"]), call("3 weeks ago", ["en"], RELATIVE_BASE=B2)))
     P.append(("benign-settings", call("March", ["en"], PREFER_DATES_FROM="past"), call("Friday 10:30", ["en"], RELATIVE_BASE=B2, PREFER_DATES_FROM="past")))
@@ -100,7 +101,9 @@ def run(ctx):
             # lazily built per-locale attributes (first use of a locale by two threads): every line of the builders
             if cls == "same-config":
                 for site, nocc in (("dateparser/languages/locale.py:_get_simplifications", 24 if tier == "quick" else 120), ("dateparser/languages/locale.py:_set_splitters", 6),
-                                   ("dateparser/languages/locale.py:_set_wordchars", 6), ("dateparser/languages/locale.py:_get_dictionary", 8)):
+                                   ("dateparser/languages/locale.py:_set_wordchars", 6), ("dateparser/languages/locale.py:_get_dictionary", 8),
+                                   ("dateparser/languages/locale.py:_get_relative_translations", 6),
+                                   ("dateparser/languages/locale.py:_generate_relative_translations", 30 if tier == "quick" else 200)):
                     for occ in range(1, nocc + 1):
                         cold_jobs.append({"A": X, "B": Y, "warm": False, "ks": [occ], "site": site}); cold_meta.append((cls, X, Y, role, "%s-%d" % (site.split(":")[1], occ)))
         cold = pool.map(run_job, cold_jobs, chunksize=2)
